@@ -25,7 +25,6 @@ impl<I: CloseSyscall> CloseSyscall for NioCloseSyscall<I> {
         // the descriptor number may be reused by a new socket: forget its time limits
         _ = crate::syscall::unix::SEND_TIME_LIMIT.remove(&fd);
         _ = crate::syscall::unix::RECV_TIME_LIMIT.remove(&fd);
-        _ = crate::syscall::unix::FORCED_NON_BLOCKING.remove(&fd);
         self.inner.close(fn_ptr, fd)
     }
 }
